@@ -110,16 +110,18 @@ def rule_r1(chk, m):
     # the guard itself
     g = m.func("_check_periods")
     chk.saw(m, "_check_periods")
-    body = strip_docstring(g.body)
+    from ..core import exit_paths, literal_of
     ps = params(g)
-    ok = False
-    if body and isinstance(body[0], ast.If) and isinstance(body[0].test, ast.Compare) and isinstance(body[0].test.ops[0], ast.Eq):
-        t = body[0].test
-        sides = {unparse(t.left).replace(" ", ""), unparse(t.comparators[0]).replace(" ", "")}
-        types_ok = sides in ({f"str(type({ps[0]}))", f"str(type({ps[1]}))"}, {f"type({ps[0]})", f"type({ps[1]})"})
-        only_return_inside = all(isinstance(s, ast.Return) for s in body[0].body) and not body[0].orelse
-        rest_raises = isinstance(body[-1], ast.Raise) and not any(isinstance(n, ast.Return) for s in body[1:] for n in ast.walk(s))
-        ok = types_ok and only_return_inside and rest_raises
+    want = {"==".join(sorted([f"str(type({ps[0]}))", f"str(type({ps[1]}))"])), "==".join(sorted([f"type({ps[0]})", f"type({ps[1]})"])),
+            " is ".join(sorted([f"type({ps[0]})", f"type({ps[1]})"]))}
+    paths = exit_paths(g.body)
+    ok = None
+    if paths is not None:
+        normal = [p_ for p_ in paths if p_[1] in ("return", "end")]
+        raising = [p_ for p_ in paths if p_[1] == "raise"]
+        def has(p_, polarity):
+            return any(literal_of(t, k) in {(w, polarity) for w in want} for t, k in p_[0])
+        ok = bool(normal) and bool(raising) and all(has(p_, True) for p_ in normal) and all(has(p_, False) for p_ in raising)
     chk.ob("C09-R1", "dates._check_periods", ok, "returns only when type(first) == type(second); otherwise raises", m.loc(g))
     dec = m.func("_check_periods_decorator.wrapper")
     src = unparse(dec).replace(" ", "")
@@ -178,19 +180,27 @@ def rule_r2(chk, m):
     f = meths["__sub__"]
     chk.saw(m, "Period.__sub__")
     ps = params(f)
-    body = strip_docstring(f.body)
-    ok = False
-    if len(body) == 1 and isinstance(body[0], ast.If) and unparse(body[0].test) == f"_is_period({ps[1]})":
-        a = body[0].body[0]
-        b = body[0].orelse[0] if body[0].orelse else None
-        oka = isinstance(a, ast.Return) and unparse(a.value) == f"{ps[0]}._sub_period({ps[1]})"
-        okb = False
-        if isinstance(b, ast.Return) and isinstance(b.value, ast.Call) and unparse(b.value.func) in (f"{ps[0]}.__add__",) and len(b.value.args) == 1:
-            try:
-                okb = alg.equal(alg.ToIR()(b.value.args[0]), alg.neg(sym(ps[1])))
-            except Undecided:
-                okb = None
-        ok = None if okb is None else (oka and okb)
+    from ..core import decision_list, literal_of
+    dl = decision_list(f.body)
+    ok = None
+    if dl is not None and len(dl) == 2 and dl[0][0] is not None and dl[1][0] is None:
+        lit, pol = literal_of(dl[0][0], True)
+        if lit == f"_is_period({ps[1]})":
+            a, b = (dl[0][1], dl[1][1]) if pol else (dl[1][1], dl[0][1])
+            oka = unparse(a) == f"{ps[0]}._sub_period({ps[1]})"
+            okb = False
+            if isinstance(b, ast.Call) and unparse(b.func) in (f"{ps[0]}.__add__",) and len(b.args) == 1:
+                try:
+                    okb = alg.equal(alg.ToIR()(b.args[0]), alg.neg(sym(ps[1])))
+                except Undecided:
+                    okb = None
+            elif isinstance(b, ast.BinOp) and isinstance(b.op, (ast.Add, ast.Sub)) and unparse(b.left) == ps[0]:
+                try:
+                    rhs = alg.ToIR()(b.right)
+                    okb = alg.equal(rhs if isinstance(b.op, ast.Sub) else alg.neg(rhs), sym(ps[1]))
+                except Undecided:
+                    okb = None
+            ok = None if okb is None else (oka and okb)
     chk.ob("C09-R2", "dates.Period.__sub__", ok, "period -> _sub_period(other); number -> __add__(-int(other))", m.loc(f))
     g = m.func("_is_period")
     ok = unparse(strip_docstring(g.body)[0]).replace(" ", "") == f"returnisinstance({params(g)[0]},Period)"
@@ -328,12 +338,30 @@ def rule_r3(chk, m):
         chk.ob("C09-R3", f"dates.Period.shift[{k}]", got.get(k) == w, f"case {k!r}: returns {got.get(k)} (documented: {w})", m.loc(f))
     # daily soy/eoy/eopy
     d = m.methods("DailyPeriod")
-    for name, ymd in (("create_soy", "(year, 1, 1)"), ("create_eoy", "(year, 12, 31)"), ("create_eopy", "(year - 1, 12, 31)")):
+    import datetime
+    for name, want_fn, ymd in (("create_soy", lambda y, mth: datetime.date(y, 1, 1), "(year, 1, 1)"), ("create_eoy", lambda y, mth: datetime.date(y, 12, 31), "(year, 12, 31)"),
+                               ("create_eopy", lambda y, mth: datetime.date(y - 1, 12, 31), "(year - 1, 12, 31)"), ("create_som", lambda y, mth: datetime.date(y, mth, 1), "(year, month, 1)")):
         f = d.get(name)
+        if f is None:
+            continue
         chk.saw(m, f"DailyPeriod.{name}")
-        src = unparse(f)
-        ok = f"_dt.date{ymd}.toordinal()" in src and "year = self.get_year()" in src and "return type(self)(serial)" in src
-        chk.ob("C09-R3", f"dates.DailyPeriod.{name}", ok, f"ordinal of date{ymd}", m.loc(f))
+        bad = None
+        try:
+            for (y, mth, dd_) in ((2023, 1, 1), (2023, 6, 17), (2024, 2, 29), (2024, 12, 31), (2025, 1, 1), (2000, 3, 1), (1900, 12, 31)):
+                serial = datetime.date(y, mth, dd_).toordinal()
+                funcs = dict(fin.CALENDAR_FUNCS)
+                funcs.update({"self.get_year": lambda y=y: y, "self.to_ymd": lambda y=y, mth=mth, dd_=dd_, **kw: (y, mth, dd_), "type": lambda obj: (lambda s_: ("PERIOD", s_)),
+                              "self.to_year_segment": lambda y=y, serial=serial: (y, serial - datetime.date(y, 1, 1).toordinal() + 1)})
+                got = fin.run_function(f, {}, funcs=funcs, env={"self": "SELF", "self.serial": serial, "self.frequency.value": 365}, methods=d)
+                want = ("PERIOD", want_fn(y, mth).toordinal())
+                if got != want:
+                    bad = ((y, mth, dd_), got, want)
+                    break
+            chk.ob("C09-R3", f"dates.DailyPeriod.{name}", bad is None,
+                   f"ordinal of date{ymd} on 7 days incl. leap day and year ends" if bad is None else
+                   f"{name}() of {bad[0]} gives {bad[1]} (want the period of ordinal {bad[2][1]} = date{ymd})", m.loc(f))
+        except fin.NotFinite as ex:
+            chk.undecided("C09-R3", f"dates.DailyPeriod.{name}", f"not evaluable: {ex}", m.loc(f))
 
 
 def month_tables(m):
@@ -397,10 +425,32 @@ def rule_r4(chk, m):
     # to_ymd / from_ymd
     f = m.func("RegularPeriodMixin.to_ymd")
     chk.saw(m, "RegularPeriodMixin.to_ymd")
-    src = unparse(f).replace(" ", "")
-    ok = ("year,per=self.to_year_segment()" in src and "month,day=self._MONTH_DAY_RESOLUTION[position][per]" in src
-          and "ifdayisNone:" in src and "_,day=_ca.monthrange(year,month)" in src and "return(year,month,day)" in src)
-    chk.ob("C09-R4", "dates.RegularPeriodMixin.to_ymd", ok, "(year, table month, table day or monthrange(year, month) when None)", m.loc(f))
+    bad, n_cases = None, 0
+    pos_param = params(f)[1] if len(params(f)) > 1 else "position"
+    try:
+        for cname, fr in REGULAR.items():
+            for position in ("start", "middle", "end"):
+                for per in range(1, fr + 1):
+                    for year in (1900, 2000, 2023, 2024):
+                        got = fin.run_function(f, {pos_param: position}, env={"self": "SELF", "self._MONTH_DAY_RESOLUTION": tables[cname]},
+                                               funcs={"self.to_year_segment": lambda year=year, per=per: (year, per), "_ca.monthrange": calendar.monthrange})
+                        n_cases += 1
+                        mth, day = tables[cname][position][per]
+                        want = (year, mth, day if day is not None else calendar.monthrange(year, mth)[1])
+                        if tuple(got) != want:
+                            bad = (cname, position, per, year, tuple(got), want)
+                            break
+                    if bad:
+                        break
+                if bad:
+                    break
+            if bad:
+                break
+        chk.ob("C09-R4", "dates.RegularPeriodMixin.to_ymd", bad is None,
+               f"{n_cases} cases (class x position x segment x year incl. leap): (year, table month, table day or the month's last day when the table says None)"
+               if bad is None else f"{bad[0]} position={bad[1]} segment={bad[2]} year={bad[3]}: to_ymd gives {bad[4]} (want {bad[5]})", m.loc(f))
+    except fin.NotFinite as ex:
+        chk.undecided("C09-R4", "dates.RegularPeriodMixin.to_ymd", f"not evaluable: {ex}", m.loc(f))
     f = m.func("RegularPeriodMixin.from_ymd")
     chk.saw(m, "RegularPeriodMixin.from_ymd")
     rets = [n for n in walk_no_nested(f) if isinstance(n, ast.Return)]
@@ -481,24 +531,36 @@ def rule_r5(chk, m):
     if not fired:
         raise AnalysisError("C09-R5 self-check: fixture with int-date did not fire")
     # from_year_segment(year, seg): boy ordinal + seg - 1 ; to_year_segment inverse: serial - boy ordinal + 1
+    import datetime
     f = m.func("DailyPeriod.from_year_segment")
-    src = unparse(f).replace(" ", "")
-    ok = "boy_serial=_dt.date(year,1,1).toordinal()" in src
-    ser = [n for n in walk_no_nested(f) if isinstance(n, ast.Assign) and unparse(n.targets[0]) == "serial"]
+    g = m.func("DailyPeriod.to_year_segment")
+    chk.saw(m, "DailyPeriod.from_year_segment"); chk.saw(m, "DailyPeriod.to_year_segment")
+    fps = params(f)
+    made = []
+    klass = lambda serial: (made.append(serial), serial)[1]
+    bad_f = bad_t = None
+    n_cases = 0
     try:
-        ok = ok and len(ser) == 1 and alg.equal(alg.ToIR()(ser[0].value), sub(add(sym("boy_serial"), sym("segment")), num(1)))
-    except Undecided:
-        ok = None
-    chk.ob("C09-R5", "dates.DailyPeriod.from_year_segment[affine]", ok, "serial = ordinal(Jan 1) + segment - 1", m.loc(f))
-    f = m.func("DailyPeriod.to_year_segment")
-    per = [n for n in walk_no_nested(f) if isinstance(n, ast.Assign) and unparse(n.targets[0]) == "per"]
-    try:
-        ok = len(per) == 1 and alg.equal(alg.ToIR(attr=lambda s: sym("serial") if s == "self.serial" else None)(per[0].value),
-                                        add(sub(sym("serial"), sym("boy_serial")), num(1)))
-    except Undecided:
-        ok = None
-    chk.ob("C09-R5", "dates.DailyPeriod.to_year_segment[affine]", ok, "segment = serial - ordinal(Jan 1) + 1 (inverse of from_year_segment)", m.loc(f))
-
+        for year in (1, 4, 1900, 1999, 2000, 2023, 2024, 9999):
+            jan1 = datetime.date(year, 1, 1).toordinal()
+            ndays = datetime.date(year, 12, 31).toordinal() - jan1 + 1
+            for seg in sorted({1, 2, 31, 59, 60, 61, 365, ndays}):
+                got = fin.run_function(f, {fps[0]: klass, fps[1]: year, fps[2]: seg}, funcs=dict(fin.CALENDAR_FUNCS), env={"int": int})
+                n_cases += 1
+                if got != jan1 + seg - 1 and bad_f is None:
+                    bad_f = (year, seg, got, jan1 + seg - 1)
+                back = fin.run_function(g, {}, funcs=dict(fin.CALENDAR_FUNCS), env={"self": "SELF", "self.serial": jan1 + seg - 1})
+                if tuple(back) != (year, seg) and bad_t is None:
+                    bad_t = (jan1 + seg - 1, tuple(back), (year, seg))
+        chk.ob("C09-R5", "dates.DailyPeriod.from_year_segment[affine]", bad_f is None,
+               f"{n_cases} cases (years incl. leap and 1/9999, segments incl. 59..61 and the last day): serial = ordinal(Jan 1) + segment - 1"
+               if bad_f is None else f"from_year_segment({bad_f[0]}, {bad_f[1]}) has serial {bad_f[2]} (want {bad_f[3]})", m.loc(f))
+        chk.ob("C09-R5", "dates.DailyPeriod.to_year_segment[affine]", bad_t is None,
+               "segment = serial - ordinal(Jan 1) + 1 on the same cases (inverse of from_year_segment)"
+               if bad_t is None else f"to_year_segment of serial {bad_t[0]} gives {bad_t[1]} (want {bad_t[2]})", m.loc(g))
+    except fin.NotFinite as ex:
+        chk.undecided("C09-R5", "dates.DailyPeriod.from_year_segment[affine]", f"not evaluable: {ex}", m.loc(f))
+        chk.undecided("C09-R5", "dates.DailyPeriod.to_year_segment[affine]", f"not evaluable: {ex}", m.loc(g))
 
 # --------------------------------------------------------------------------------------------------
 # R6 spans
